@@ -298,6 +298,8 @@ type c14Spec struct {
 	// an .include line near the condition: "<where>|<path>", where = before (unconditional, before the
 	// condition) | cond (before it, inside .if defined(C14OTHER) ... .endif) | after (after the condition)
 	Inc string `json:"inc,omitempty"`
+	// the fragment is a hacks.mk (MkLines.checkAll sets Tools.SeenPrefs before every line)
+	Hacks bool `json:"hacks,omitempty"`
 }
 
 func (s c14Spec) variable() c14Var {
@@ -736,7 +738,11 @@ func c14RunImpl(c *c14Case) {
 	idx := len(lines)
 	lines = append(lines, c.line)
 	lines = append(lines, c.post...)
-	r := pkglint.VerifCondSimplifyLines(vars, lines, idx)
+	basename := "filename.mk"
+	if c.spec.Hacks {
+		basename = "hacks.mk"
+	}
+	r := pkglint.VerifCondSimplifyFile(vars, basename, lines, idx)
 	c.newLine, c.fixes, c.panicked = r.NewLine, r.Fixes, r.Panicked
 }
 
@@ -758,7 +764,7 @@ func (st *c14State) runCases(cases []*c14Case) {
 	for i, c := range cases {
 		// the model reads the lines itself: SeenPrefs and vars.IsDefined are no longer inputs
 		before := c.before()
-		toks := []string{"f", "0", fmt.Sprint(len(before))}
+		toks := []string{"f", map[bool]string{true: "1", false: "0"}[c.spec.Hacks], fmt.Sprint(len(before))}
 		for _, l := range before {
 			toks = append(toks, c14Fline(l))
 		}
@@ -795,7 +801,7 @@ func (st *c14State) runCases(cases []*c14Case) {
 			c.model.applied = append(c.model.applied, c14Fix{f[3+4*k], unhx(f[4+4*k]), unhx(f[5+4*k]), f[6+4*k]})
 		}
 		// a sample of the model's runs for the extraction cross-check: rewritten ones, include contexts preferred
-		if len(st.crossF) < 60 && n > 0 && !strings.Contains(c.line, "$$") && (c.spec.Inc != "" && i%37 == 0 || i%1499 == 0) {
+		if len(st.crossF) < 60 && n > 0 && !c.spec.Hacks && !strings.Contains(c.line, "$$") && (c.spec.Inc != "" && i%37 == 0 || i%1499 == 0) {
 			st.crossF = append(st.crossF, c)
 		}
 	}
@@ -803,7 +809,9 @@ func (st *c14State) runCases(cases []*c14Case) {
 	for _, c := range cases {
 		res.TracesValidated++
 		// the harness' own reading of the lines before the condition against the Coq spec's (Spec/PrefsFile.v sure_after)
-		if c.prefsSure != c.model.specPrefs || c.condInc != c.model.specCondInc {
+		if c.spec.Hacks {
+			res.Count("hacks_mk_cases", 1)
+		} else if c.prefsSure != c.model.specPrefs || c.condInc != c.model.specCondInc {
 			res.AddViolation(Violation{Key: "C14/correspondence/ground-truth-prefs",
 				What: fmt.Sprintf("after the lines %q the harness takes the preferences as loaded for sure = %v (conditionally = %v), Spec/PrefsFile.v says %v (%v)",
 					c.before(), c.prefsSure, c.condInc, c.model.specPrefs, c.model.specCondInc),
@@ -814,6 +822,8 @@ func (st *c14State) runCases(cases []*c14Case) {
 			res.Count("include_"+strings.SplitN(c.spec.Inc, "|", 2)[0]+map[bool]string{true: "_loads", false: "_nearmiss"}[c14ReallyLoadsPrefs(strings.SplitN(c.spec.Inc, "|", 2)[1])], 1)
 		}
 		switch {
+		case c.spec.Hacks:
+			res.Count("seenprefs_hacks_mk_"+c14CoqBool(c.model.seenPrefs), 1)
 		case c.model.seenPrefs && c.model.specPrefs:
 			res.Count("seenprefs_and_really_loaded", 1)
 		case c.model.seenPrefs && c.model.specCondInc:
@@ -909,7 +919,7 @@ func (st *c14State) cause(c *c14Case, kind, from string, v *string, n byte) stri
 		// Tools.SeenPrefs is set by an include inside a conditional block, which may or may not happen
 		return kind + "/undefined/conditional-include"
 	}
-	if v == nil && n == 'M' && c.v.Ctx == "cond-self" && kind != "and" {
+	if v == nil && n == 'M' && c.v.Ctx == "cond-self" && c.spec.Inc == "" && kind != "and" {
 		// isDefined takes an assignment inside a conditional block as a guarantee
 		return kind + "/undefined/conditional-assignment"
 	}
@@ -1138,6 +1148,10 @@ func c14NewCase(s c14Spec) *c14Case {
 	pre, line, post := s.context(cond)
 	c := &c14Case{spec: s, layer: "unit", line: line, pre: pre, post: post, tree: tree, v: s.variable()}
 	c.prefsSure, c.condInc = c14PrefsSure(c.before())
+	if s.Hacks {
+		// mk/bsd.hacks.mk, which reads the package's hacks.mk, is included by bsd.pkg.mk after bsd.prefs.mk
+		c.prefsSure = true
+	}
 	return c
 }
 
@@ -1186,7 +1200,7 @@ func c14Exhaustive(thorough bool) []c14Spec {
 				for _, pos := range []bool{true, false} {
 					for _, pre := range prefixes {
 						for _, f := range forms {
-							add(c14Spec{"plain", f, p, pos, pre, k.tag, cb.def, cb.prefs, 0, "", "", ""})
+							add(c14Spec{"plain", f, p, pos, pre, k.tag, cb.def, cb.prefs, 0, "", "", "", false})
 						}
 					}
 				}
@@ -1203,7 +1217,7 @@ func c14Exhaustive(thorough bool) []c14Spec {
 							continue
 						}
 						for _, f := range forms {
-							add(c14Spec{"plain", f, p, pos, pre, k.tag, def, true, 0, "", "", ""})
+							add(c14Spec{"plain", f, p, pos, pre, k.tag, def, true, 0, "", "", "", false})
 						}
 					}
 				}
@@ -1214,8 +1228,8 @@ func c14Exhaustive(thorough bool) []c14Spec {
 	for _, k := range c14Kinds {
 		for _, def := range []string{"D", "U"} {
 			for _, f := range forms {
-				add(c14Spec{"plain", f, "", true, "-", k.tag, def, true, 0, "", "", ""})
-				add(c14Spec{"defined-and", f, "", true, "-", k.tag, def, true, 0, "", "", ""})
+				add(c14Spec{"plain", f, "", true, "-", k.tag, def, true, 0, "", "", "", false})
+				add(c14Spec{"defined-and", f, "", true, "-", k.tag, def, true, 0, "", "", "", false})
 			}
 		}
 	}
@@ -1228,10 +1242,10 @@ func c14Exhaustive(thorough bool) []c14Spec {
 				for _, p := range []string{"alpha", "0", "al*", "[0-9]*", "[yY][eE][sS]", "", "${C14LV}*", "${C14LV}"} {
 					for _, pos := range []bool{true, false} {
 						for _, f := range forms {
-							add(c14Spec{sh, f, p, pos, "", tag, def, true, 0, "", "", ""})
+							add(c14Spec{sh, f, p, pos, "", tag, def, true, 0, "", "", "", false})
 							if sh == "defined-and" {
 								// a default value in :U makes the expression non-empty although the variable is undefined
-								add(c14Spec{sh, f, p, pos, "Ualpha", tag, def, true, 0, "", "", ""})
+								add(c14Spec{sh, f, p, pos, "Ualpha", tag, def, true, 0, "", "", "", false})
 							}
 						}
 					}
@@ -1254,7 +1268,7 @@ func c14Exhaustive(thorough bool) []c14Spec {
 					for _, p := range []string{"alpha", "[nN][oO]", "al*", "0", "[0-9]*"} {
 						for _, pos := range []bool{true, false} {
 							for _, f := range forms {
-								add(c14Spec{"plain", f, p, pos, "", tag, cb.def, cb.prefs, 0, param, cx, ""})
+								add(c14Spec{"plain", f, p, pos, "", tag, cb.def, cb.prefs, 0, param, cx, "", false})
 							}
 						}
 					}
@@ -1294,13 +1308,25 @@ func c14Exhaustive(thorough bool) []c14Spec {
 			}
 		}
 	}
+	// a hacks.mk: SeenPrefs from the first line on, with and without includes
+	for _, inc := range []string{"", "before|../../devel/libfoo/buildlink3.mk", "after|../../mk/bsd.prefs.mk"} {
+		for _, tag := range []string{"EA", "YN", "ID"} {
+			for _, def := range []string{"P", "U", "D", "L"} {
+				for _, p := range []string{"alpha", "[nN][oO]", "al*"} {
+					for _, f := range forms {
+						add(c14Spec{Shape: "plain", Form: f, Pat: p, Positive: true, Tag: tag, Def: def, Inc: inc, Hacks: true})
+					}
+				}
+			}
+		}
+	}
 	// ... and under the compound shapes that mention defined()
 	for _, sh := range []string{"defined-and", "paren", "double-not"} {
 		for _, tag := range []string{"EA", "YN"} {
 			for _, cx := range c14Contexts {
 				for _, p := range []string{"alpha", "[nN][oO]", "al*"} {
 					for _, f := range forms {
-						add(c14Spec{sh, f, p, true, "", tag, "U", true, 0, "foo", cx, ""})
+						add(c14Spec{sh, f, p, true, "", tag, "U", true, 0, "foo", cx, "", false})
 					}
 				}
 			}
@@ -1346,7 +1372,7 @@ func c14Random(rng *Rng, n int) []c14Spec {
 		k := Pick(rng, c14Kinds)
 		s := c14Spec{Pick(rng, shapes), Pick(rng, []string{"bare", "not-bare", "empty", "not-empty"}), sb.String(), !rng.Chance(25),
 			Pick(rng, []string{"", "", "tl", "U"}), k.tag, cb.def, cb.prefs, 0,
-			Pick(rng, []string{"", "", "foo", "x11"}), Pick(rng, append([]string{"", "", ""}, c14Contexts...)), ""}
+			Pick(rng, []string{"", "", "foo", "x11"}), Pick(rng, append([]string{"", "", ""}, c14Contexts...)), "", false}
 		if s.Def == "F" {
 			s.Def, s.Ctx = "U", "self="
 		}
@@ -1969,6 +1995,9 @@ func (st *c14State) wholeRunIncludes(rng *Rng, tag string) {
 			for k := 0; k < n; k++ {
 				v := Pick(rng, c14IncVars)
 				form := Pick(rng, forms)
+				if file == "hacks.mk" {
+					v, form = c14IncVars[2*(k%2)], forms[k%2] // OPSYS, X11_TYPE: DefinedIfInScope, usable at load time
+				}
 				var l string
 				if strings.Count(form, "%s") == 2 {
 					l = fmt.Sprintf(form, v.name, v.pat)
@@ -1976,6 +2005,9 @@ func (st *c14State) wholeRunIncludes(rng *Rng, tag string) {
 					l = fmt.Sprintf(form, v.name)
 				}
 				sure, cnd := c14PrefsSure(before)
+				if file == "hacks.mk" {
+					sure = true // read through mk/bsd.hacks.mk, which bsd.pkg.mk includes after bsd.prefs.mk
+				}
 				c := &c14IncCond{file: file, lineno: len(lines) + 1, name: v.name, line: l, sure: sure, cond: cnd, always: v.always}
 				conds = append(conds, c)
 				byLine[fmt.Sprintf("%s:%d", file, c.lineno)] = c
@@ -2006,6 +2038,7 @@ func (st *c14State) wholeRunIncludes(rng *Rng, tag string) {
 		}
 		build(fmt.Sprintf("c14inc%02d.mk", i), []string{"# $" + "NetBSD$", ""}, p, where, nil)
 	}
+	build("hacks.mk", []string{"# $" + "NetBSD$", ""}, "../../devel/libfoo/buildlink3.mk", "before", nil)
 	if res.Broken != "" {
 		return
 	}
@@ -2109,6 +2142,11 @@ func (st *c14State) judgeIncludes(root string, conds []*c14IncCond) {
 		res.Count("wholerun_include_rewritten", 1)
 		if !strings.Contains(nl, ":U") && !c.always {
 			res.Count("wholerun_include_rewritten_without_U", 1)
+			if c.file == "hacks.mk" {
+				res.Count("wholerun_hacks_rewritten_without_U", 1)
+			}
+		} else if !c.always {
+			res.Count("wholerun_include_rewritten_with_U", 1)
 		}
 		toks := []string{"e", hx(c14CondText(c.line)), hx(c14CondText(nl)), hx(c.name)}
 		if !c.always && !c.sure {
@@ -2252,7 +2290,12 @@ func runC14(ctx *Ctx) *Result {
 			key string
 			min int
 		}{{"rewrite_word", 300}, {"rewrite_yesno", 60}, {"rewrite_match", 100}, {"rewrite_and", 20}, {"rewrite_yesno_N", 10}, {"wholerun_rewritten", 100}, {"maymatchnumber_no_checked", 5},
-			{"nested_pattern_cases", 2000}, {"nested_preserved", 500}} {
+			{"nested_pattern_cases", 2000}, {"nested_preserved", 500},
+			// what feeds isDefined: includes of prefs files and near misses, before / conditionally before / after the condition
+			{"include_context_cases", 3000}, {"include_before_loads", 400}, {"include_before_nearmiss", 400}, {"include_cond_loads", 400}, {"include_after_loads", 400},
+			{"seenprefs_no", 2000}, {"seenprefs_and_really_loaded", 2000}, {"loadsprefs_true", 300}, {"loadsprefs_false", 5000}, {"hacks_mk_cases", 100},
+			{"wholerun_include_rewritten", 60}, {"wholerun_include_rewritten_with_U", 20}, {"wholerun_include_rewritten_without_U", 5}, {"wholerun_hacks_rewritten_without_U", 2},
+			{"vm_compute_cross_checked_model_runs", 20}} {
 			n, _ := res.Distribution[fl.key].(int)
 			if n < fl.min {
 				res.Broken = fmt.Sprintf("coverage floor missed: %s = %d < %d", fl.key, n, fl.min)
